@@ -73,18 +73,18 @@ type gen struct {
 	baseAllocs []*allocInfo
 
 	// per trace
-	traceID   int
-	allocs    []*allocInfo
-	readKeys  [][3]string
+	traceID    int
+	allocs     []*allocInfo
+	readKeys   [][3]string
 	readKeySet map[string]bool
-	nonceSeq  int64
-	killOK    bool
-	t0        zcommon.Timestamp
-	round0    int64
-	w0        uint64 // storagesc wallet at trace start
-	l0        *big.Int // liabilities at trace start
-	prev      *storagesc.VerifStorageSnap
-	lastRes   world.Result
+	nonceSeq   int64
+	killOK     bool
+	t0         zcommon.Timestamp
+	round0     int64
+	w0         uint64   // storagesc wallet at trace start
+	l0         *big.Int // liabilities at trace start
+	prev       *storagesc.VerifStorageSnap
+	lastRes    world.Result
 }
 
 func init() { common.Register("storage", Run) }
@@ -92,12 +92,12 @@ func init() { common.Register("storage", Run) }
 func scOverrides() map[string]interface{} {
 	p := "smart_contracts.storagesc."
 	return map[string]interface{}{
-		p + "time_unit":                       "1h",
-		p + "min_write_price":                 0.00001,
-		p + "min_blobber_capacity":            32 * MB,
-		p + "min_alloc_size":                  1 * MB,
-		p + "max_challenge_completion_rounds": 6,
-		p + "validators_per_challenge":        2,
+		p + "time_unit":                                      "1h",
+		p + "min_write_price":                                0.00001,
+		p + "min_blobber_capacity":                           32 * MB,
+		p + "min_alloc_size":                                 1 * MB,
+		p + "max_challenge_completion_rounds":                6,
+		p + "validators_per_challenge":                       2,
 		p + "free_allocation_settings.data_shards":           2,
 		p + "free_allocation_settings.parity_shards":         1,
 		p + "free_allocation_settings.size":                  6 * MB,
@@ -203,10 +203,10 @@ func (g *gen) must(res world.Result, what string) world.Result {
 }
 
 var blobberPlan = []struct {
-	wp, rp   uint64 // per GB
-	capMB    int64
-	stake    uint64
-	charge   float64
+	wp, rp uint64 // per GB
+	capMB  int64
+	stake  uint64
+	charge float64
 }{
 	{4000000, 16384 * 5, 512, 6000000, 0.1},
 	{4000000, 16384 * 20, 384, 4000000, 0.0},
@@ -244,8 +244,8 @@ func (g *gen) buildBase() {
 		g.byID[b.key.ID] = b
 		g.must(g.sc(b.key, "add_blobber", map[string]interface{}{
 			"version": "v3", "url": "https://" + b.name + ".example.org",
-			"terms":    map[string]interface{}{"read_price": p.rp, "write_price": p.wp},
-			"capacity": p.capMB * MB,
+			"terms":               map[string]interface{}{"read_price": p.rp, "write_price": p.wp},
+			"capacity":            p.capMB * MB,
 			"stake_pool_settings": map[string]interface{}{"delegate_wallet": b.delegate.ID, "num_delegates": 5, "service_charge": p.charge},
 		}, 0), "add_blobber "+b.name)
 		g.must(g.sc(b.delegate, "stake_pool_lock", map[string]interface{}{"provider_type": 3, "provider_id": b.key.ID}, p.stake), "stake "+b.name)
@@ -261,8 +261,8 @@ func (g *gen) buildBase() {
 		g.byID[b.key.ID] = b
 		g.must(g.sc(b.key, "add_blobber", map[string]interface{}{
 			"version": "v3", "url": "https://" + b.name + ".example.org", "is_enterprise": true,
-			"terms":    map[string]interface{}{"read_price": 16384 * 5, "write_price": 3000000 + 1000000*uint64(i)},
-			"capacity": 512 * MB,
+			"terms":               map[string]interface{}{"read_price": 16384 * 5, "write_price": 3000000 + 1000000*uint64(i)},
+			"capacity":            512 * MB,
 			"stake_pool_settings": map[string]interface{}{"delegate_wallet": b.delegate.ID, "num_delegates": 5, "service_charge": 0.1},
 		}, 0), "add_blobber "+b.name)
 		g.must(g.sc(b.delegate, "stake_pool_lock", map[string]interface{}{"provider_type": 3, "provider_id": b.key.ID}, 5000000), "stake "+b.name)
